@@ -37,6 +37,7 @@ static std::vector<Op> buildAlphabet(const std::string& name, Limits& L, const s
         A.push_back(opFrame("pt_missing", "0", 0, L)); A.push_back(opFrame("ch_extra", "n+1", 0, L));
         A.push_back(opFrame("addpoints", "0", 1, L)); A.push_back(opFrame("addanalogs", "0", 1, L));
         A.push_back(opFrame("sub_extra", "0", 1, L)); A.push_back(opFrame("sub_missing", "0", 1, L));   // the single stored frame replaced by one with another number of sub-frames
+        A.push_back(opBigObject(17, 5, 9)); A.push_back(opBulkPoints(33)); A.push_back(opBulkChans(17));
         A.push_back(opSubmitStored(0, "n", L)); A.push_back(opSubmitStored(0, "app", L));   // a stored frame handed back to the object
         for (auto w : {"both", "pt", "an"}) A.push_back(opFrameFree(w, 0, L));
         A.push_back(opFrameEmpty(L));
@@ -66,6 +67,7 @@ static std::vector<Op> buildAlphabet(const std::string& name, Limits& L, const s
     } else if (name == "c07") {     // C07: object states x deviations
         L.maxFrames = 2; L.maxPoints = 3; L.maxChans = 2;
         for (auto n : {"AB", "A", "C"}) A.push_back(opPoint(n, L));   // one label is a proper prefix of the other
+        if (thorough) A.push_back(opBulkPoints(300)); else A.push_back(opBulkPoints(40));   // more declared points than one LABELS parameter can hold on file (in memory that is legal)
         for (auto n : {"a", "ab"}) A.push_back(opAnalog(n, L));
         for (float r : {0.f, 100.f, 0.5f}) A.push_back(opRate("POINT", r));    // 0.5 Hz: a rate that is set, yet truncates to 0
         for (float r : {0.f, 200.f, 0.5f}) A.push_back(opRate("ANALOG", r));
@@ -119,6 +121,7 @@ static std::vector<Op> buildAlphabet(const std::string& name, Limits& L, const s
         A.push_back(opFrame("ok", "app", 0, L)); A.push_back(opFrame("ok", "app", 2, L)); A.push_back(opFrame("ok", "0", 1, L));
         A.push_back(opFrame("ok", "n+1", 0, L)); A.push_back(opFrame("addpoints", "0", 1, L)); A.push_back(opFrame("addanalogs", "0", 1, L));
         A.push_back(opColPoint("ok", 1, L)); A.push_back(opColAnalog("ok", 1, L));
+        A.push_back(opBigObject(33, 17, 129)); A.push_back(opBigObject(65, 0, 17)); A.push_back(opBigObject(0, 33, 33)); A.push_back(opBulkPoints(17));   // counts beyond the shape guards (and more than 64 KiB of data), reached by repeating one call
         A.push_back(opParamCopyOfStored("NEWG", "X", "NEWG", "XR")); A.push_back(opParamCopyOfStored("NEWG", "X", "G2", "X")); A.push_back(opParam("lower_case_grp", "the_quick_brown_fox_jumps_over_a_lazy_dog_0189", pv("i7"), "d1", false, L));   // a stored parameter copied out, renamed and added again; every lower-case letter in a name
         A.push_back(opSubmitStored(0, "n", L)); A.push_back(opSubmitStored(0, "n+1", L)); A.push_back(opSubmitStored(0, "app", L));   // a stored frame handed back (append / past the end), then columns and a save
         A.push_back(opReload());
